@@ -311,7 +311,7 @@ func (v *victim) exec(ctx context.Context, f []string) (string, error) {
 			return "", errors.New("txid required")
 		}
 		want, _ := strconv.ParseUint(f[1], 10, 64)
-		deadline := time.Now().Add(20 * time.Second)
+		deadline := time.Now().Add(90 * time.Second)
 		for {
 			v.fmu.Lock()
 			got, entered, done := v.fapplied, v.fentered, v.fdone
